@@ -46,8 +46,14 @@ def call_value(I, callee, args, kwargs, e, fr):
         live = [c for c in callee.vals if not (isinstance(c, Const) and c.v is None)]
         if not live:
             raise _Raise("TypeError: 'NoneType' object is not callable", e)
-        for c in live:     # calling None raises: that alternative contributes no value
-            out = join(out, call_value(I, c, args, dict(kwargs), e, fr))
+        if len(live) > 1:
+            I.maybe += 1       # exactly one alternative runs: effects of each are 'maybe'
+        try:
+            for c in live:     # calling None raises: that alternative contributes no value
+                out = join(out, call_value(I, c, args, dict(kwargs), e, fr))
+        finally:
+            if len(live) > 1:
+                I.maybe -= 1
         return out
     if isinstance(callee, FuncV):
         return call_repo(I, callee.func, args, kwargs, e, fr, closure=callee.closure)
@@ -57,6 +63,8 @@ def call_value(I, callee, args, kwargs, e, fr):
         return call_external(I, callee.dotted, args, kwargs, e, fr)
     if isinstance(callee, Bound):
         return call_method(I, callee, args, kwargs, e, fr)
+    if isinstance(callee, LambdaV):
+        return I.call_lambda(callee, args, kwargs)
     if isinstance(callee, Sym):
         # calling an opaque value (lambda, local class, np.int64 alias, dynamically selected method ...)
         for a in list(args) + list(kwargs.values()):
@@ -193,6 +201,14 @@ def call_external(I, dotted, args, kwargs, e, fr):
         o = I.obj(a)
         if o is not None and o.kind == "circuit" and dotted not in PURE_CIRCUIT_CONSUMERS and not dotted.startswith("qiskit.quantum_info."):
             o.term = t_seq(o.term, ("unknown", f"passed to external {dotted} at {where(fr, e)}"))
+    if dotted in ("os.path.split", "posixpath.split", "ntpath.split") and args:
+        # (directory part, last component): for a file name assembled without separators the last component is the name itself
+        p0 = args[0]
+        has_sep = isinstance(p0, Sym) and any(isinstance(x, Const) and isinstance(x.v, str) and ("/" in x.v or "\\" in x.v) for x in p0.args)
+        if isinstance(p0, Sym) and p0.tag == "fstr" and not has_sep:
+            return I.new_list(items=[Sym("dirname", p0, maybe_none=False), p0], kind="tuple", site=where(fr, e))
+    if dotted in ("os.path.basename", "posixpath.basename") and args and isinstance(args[0], Sym) and args[0].tag == "fstr":
+        return args[0]
     if dotted.endswith("resources.files"):
         return Sym("ext:importlib.resources.files", *[a if not isinstance(a, Ref) else I.sym_of(a) for a in args])
     if dotted.startswith("itertools."):
@@ -284,6 +300,8 @@ def call_builtin(I, name, args, kwargs, e, fr):
         return Sym(tag, *[a for a in args])
     if name == "next":
         return I.iter_elem(a0, fr, e)
+    if name == "str" and len(args) == 1 and isinstance(a0, Sym) and a0.tag in ("fstr", "filetext", "field", "part"):
+        return a0          # str() of a string is the string
     if name in ("int", "float", "bool", "str", "abs", "min", "max", "sum", "any", "all", "round", "repr", "hash", "id", "ord", "chr", "bin", "format", "divmod", "pow"):
         if name in ("int", "bool", "str", "abs") and isinstance(a0, Const) and len(args) == 1:
             try:
@@ -296,6 +314,12 @@ def call_builtin(I, name, args, kwargs, e, fr):
     if name in ("getattr",):
         if isinstance(args[1], Const):
             return I.getattr(args[0], args[1].v, e, fr)
+        names = args[1].vals if isinstance(args[1], Alt) else ([args[1]] if isinstance(args[1], Const) else None)
+        if names:
+            names = [n for n in names if not (isinstance(n, Sym) and n.tag == "noelem")]
+        if names and all(isinstance(n, Const) and isinstance(n.v, str) for n in names):
+            # the attribute name ranges over a known finite set of constants (e.g. a table of gate names)
+            return Alt([I.getattr(args[0], n.v, e, fr) for n in names])
         o = I.obj(args[0])
         if o is not None and o.kind == "circuit":
             # a method chosen at run time may append any gate
